@@ -259,6 +259,18 @@ def loop_roles(b, H, callee):
 def loop_with_replacement(rep, f, c, fn, b, H):
     site = sp_str(b.raw['span'])
     TRl, paths = loop_roles(b, H, 'Decoder::decode_to_string')
+    slice_mode = False
+    if TRl is None:
+        # the position may be kept as a shrinking slice instead: decode_to_string(remaining, ..); remaining = &remaining[read..]
+        for p in paths:
+            dc = [e for e in p.calls() if e[1] == 'Decoder::decode_to_string']
+            if len(dc) == 1:
+                a1 = strip_ref(dc[0][2][1])
+                while a1[0] in ('deref', 'ref'):
+                    a1 = strip_ref(a1[1])
+                if a1[0] == 'init' and len(b.defs.get(a1[1], [])) >= 2:
+                    TRl = a1[1]
+                    slice_mode = True
     if TRl is None:
         rep.undecidable('C11-D3.loop', fn, 'the loop does not call decode_to_string on &bytes[position..] with a loop-carried position', site, c)
         return
@@ -291,7 +303,14 @@ def loop_with_replacement(rep, f, c, fn, b, H):
             continue
         a = dc[0][2]
         ix = index_from(a[1])
-        if not (ix is not None and len(ix) == 2 and strip_ref(ix[0]) == ARG and ix[1] == TR and a[3] == ('c', 1, 'bool')):
+        if slice_mode:
+            a1 = strip_ref(a[1])
+            while a1[0] in ('deref', 'ref'):
+                a1 = strip_ref(a1[1])
+            fed = a1 == TR
+        else:
+            fed = ix is not None and len(ix) == 2 and strip_ref(ix[0]) == ARG and ix[1] == TR
+        if not (fed and a[3] == ('c', 1, 'bool')):
             ok = False
             why = 'decode_to_string is not fed &bytes[total_read..] with last = true'
         res = ('call', dc[0][1], a, dc[0][3])
@@ -310,8 +329,16 @@ def loop_with_replacement(rep, f, c, fn, b, H):
             rs = [e for e in p.calls() if (e[1] or '').endswith('String::reserve')]
             q = [e for e in p.calls() if e[1] == 'Decoder::max_utf8_buffer_length']
             qa = q[0][2][1] if len(q) == 1 else None
-            q_ok = qa is not None and qa[0] == 'bin' and qa[1] == 'Sub' and qa[2] == ('len', ARG) and sum_of(qa[3], TR, rd)
-            if not (p.end[0] == 'back' and len(rs) == 1 and q_ok and sum_of(p.env.get(TRl, TR), TR, rd) and or_of(p, p.env.get(TEl, TE), TE, he)):
+            if slice_mode:
+                # remaining' = &remaining[read..] and the query is asked for remaining'.len()
+                nr = p.env.get(TRl, TR)
+                nix = index_from(nr)
+                adv_ok = nix is not None and len(nix) == 2 and strip_ref(nix[0]) == TR and nix[1] == rd
+                q_ok = adv_ok and qa is not None and (qa == ('len', strip_ref(nr)) or qa == ('bin', 'Sub', ('len', TR), rd))
+            else:
+                adv_ok = sum_of(p.env.get(TRl, TR), TR, rd)
+                q_ok = qa is not None and qa[0] == 'bin' and qa[1] == 'Sub' and qa[2] == ('len', ARG) and sum_of(qa[3], TR, rd)
+            if not (p.end[0] == 'back' and len(rs) == 1 and q_ok and adv_ok and or_of(p, p.env.get(TEl, TE), TE, he)):
                 ok = False
                 why = 'OutputFull must reserve max_utf8_buffer_length(bytes.len() - total_read) and retry with totals accumulated'
     rep.ob('C11-D3.loop', fn, ok and kinds == {'done', 'grow'}, why or 'loop cases %r' % sorted(kinds), site, {'cases': sorted(kinds)}, c)
@@ -321,7 +348,10 @@ def loop_with_replacement(rep, f, c, fn, b, H):
     for p in [p for p in pre if feasible(p) and p.end[0] == 'stop']:
         v = validity(p, ARG)
         tr = p.env.get(TRl)
-        good &= (tr == v[2]) if v else (tr == C(0))
+        if slice_mode:
+            good &= tr is not None and slice_nf(tr, ARG) == ((v[2] if v else C(0)), None)
+        else:
+            good &= (tr == v[2]) if v else (tr == C(0))
         good &= p.env.get(TEl) == ('c', 0, 'bool')
     rep.ob('C11-D3.loop-init', fn, good, 'total_read must start at valid_up_to (0 for non-borrowable encodings) and had_errors at false', site, None, c)
 
